@@ -15,4 +15,43 @@ theorem Src_load_accepts_format (m : List (Y × Y)) (S : Sect) (h : DocFormat m 
     SrcLoad.ScenarioLoader.load m = true := by
   rw [Src_load m hit, C17_accepts m S h]
 
+
+/-- a configuration the model accepts has list-valued `services` / `processes` -/
+theorem iterList_of_ok (subnets : List Nat) (osl svl prl : List Y) (sens : List ((Nat × Nat) × Rat)) (key cfg : Y)
+    (h : hostConfigOk subnets osl svl prl sens key cfg = true) : IterListCfg cfg := by
+  intro m hm
+  subst hm
+  unfold hostConfigOk at h
+  simp only [Bool.and_eq_true] at h
+  have hn := h.1.1.2
+  cases hs : getKey m "services" with
+  | none => rw [hs] at hn; cases getKey m "os" <;> simp at hn
+  | some sv =>
+    cases hp : getKey m "processes" with
+    | none => rw [hs, hp] at hn; cases getKey m "os" <;> cases sv <;> simp at hn
+    | some pr =>
+      rw [hs, hp] at hn
+      constructor
+      · intro x hx
+        injection hx with hx; subst hx
+        cases sv <;> cases getKey m "os" <;> cases pr <;> simp_all [NotStrMap, Y.isStr, Y.isMap]
+      · intro x hx
+        injection hx with hx; subst hx
+        cases pr <;> cases getKey m "os" <;> cases sv <;> simp_all [NotStrMap, Y.isStr, Y.isMap]
+
+theorem hostCfgIter_of_format (m : List (Y × Y)) (S : Sect) (h : DocFormat m S) : HostCfgIter m := by
+  intro v hv kv hkv
+  have hh := h.hHostConfigs
+  rw [hv] at hh
+  injection hh with hh
+  have hok := h.hostsValid
+  rw [← hh] at hok
+  unfold hostConfigsOk at hok
+  simp only [Bool.and_eq_true, List.all_eq_true] at hok
+  exact iterList_of_ok _ _ _ _ _ _ _ (hok.2 kv hkv)
+
+/-- C17's acceptance half about the translated source, without further hypothesis -/
+theorem Src_load_accepts_documented (m : List (Y × Y)) (S : Sect) (h : DocFormat m S) :
+    SrcLoad.ScenarioLoader.load m = true :=
+  Src_load_accepts_format m S h (hostCfgIter_of_format m S h)
 end NASim
